@@ -120,8 +120,9 @@ type rig struct {
 	attempts map[string][]*attempt
 	plans    map[string]ccase
 	listed   map[string]int
-	flushed  map[string]int // lock-step streams: chunks the backend has written
-	stalled  map[string]int // chunk the backend gave up waiting on
+	flushed  map[string]int  // lock-step streams: chunks the backend has written
+	stalled  map[string]int  // chunk the backend gave up waiting on
+	barrier  map[string]bool // gave up waiting for the other responses' first chunks
 }
 
 func binDir() string {
@@ -161,7 +162,7 @@ func streamChunk(id string, k, n int) string {
 }
 
 func startRig() (*rig, error) {
-	r := &rig{wake: make(chan struct{}, 1), attempts: map[string][]*attempt{}, plans: map[string]ccase{}, listed: map[string]int{}, flushed: map[string]int{}, stalled: map[string]int{}}
+	r := &rig{wake: make(chan struct{}, 1), attempts: map[string][]*attempt{}, plans: map[string]ccase{}, listed: map[string]int{}, flushed: map[string]int{}, stalled: map[string]int{}, barrier: map[string]bool{}}
 	var err error
 	r.dir, err = os.MkdirTemp("", "bboxagent-home-")
 	if err != nil {
@@ -265,6 +266,38 @@ func (r *rig) serveBackend() {
 							r.stalled[id] = k
 							r.mu.Unlock()
 							break
+						}
+						if k == 1 {
+							// all the responses of the case stay open until each of them has had its first chunk
+							// relayed: N responses are really open at the same time
+							group := id[:strings.LastIndex(id, "-")+1]
+							all := false
+							for w := 0; w < 3000 && !all; w++ {
+								n := 0
+								r.mu.Lock()
+								for gid, as := range r.attempts {
+									if !strings.HasPrefix(gid, group) {
+										continue
+									}
+									for _, a := range as {
+										if bytes.Contains(a.body, []byte(streamMarker(gid, 1)[1:])) {
+											n++
+											break
+										}
+									}
+								}
+								r.mu.Unlock()
+								all = n >= p.streams
+								if !all {
+									time.Sleep(5 * time.Millisecond)
+								}
+							}
+							if !all {
+								r.mu.Lock()
+								r.barrier[id] = true
+								r.mu.Unlock()
+								break
+							}
 						}
 					}
 					io.WriteString(c, "0\r\n\r\n")
@@ -551,7 +584,7 @@ func evalStreams(c ccase, i int) vx.Exec {
 			if len(as) > 0 && as[len(as)-1].complete {
 				done++
 			}
-			if r.stalled[id] > 0 {
+			if r.stalled[id] > 0 || r.barrier[id] {
 				gaveUp++
 			}
 		}
